@@ -201,3 +201,16 @@ Theorem C03_unparseable_body_signalled : forall fold cfg o t body,
   v_reqbody_error (process_request_body fold cfg o t body) = true.
 Proof. exact body_error_signalled. Qed.
 Print Assumptions C03_unparseable_body_signalled.
+
+(* a body over SecRequestBodyLimit is never cut silently: for every sequence of chunks through
+   WriteRequestBody / ReadRequestBodyFrom (reader with or without Len), both limit actions - if
+   INBOUND_DATA_ERROR is not raised there is no interruption, the buffer is the whole body and the
+   body processor ran exactly once on the whole body (so the visibility theorems above apply) *)
+Theorem C03_body_limit_signalled : forall limit reject process,
+  (0 < limit)%nat -> forall chunks t0,
+  let s := body_stream limit reject process chunks t0 in
+  bs_inbound s = false ->
+  bs_interrupted s = false /\ bs_buf s = concat (map snd chunks) /\
+  bs_tx s = process (concat (map snd chunks)) t0.
+Proof. exact body_limit_signalled. Qed.
+Print Assumptions C03_body_limit_signalled.
